@@ -190,6 +190,8 @@ var c11Keys = []c11Lines{
 	{"noncanonical-sample", []string{"dGhlIHNhbXBsZSBub25jZR=="}},
 	{"absent", nil},
 	{"two-lines", []string{c11ValidKey, c11ValidKey}},
+	{"valid+blank", []string{c11ValidKey, ""}}, // two header lines, one of them empty: not "exactly one key"
+	{"blank+valid", []string{"", c11ValidKey}},
 	{"15-bytes", []string{"AAECAwQFBgcICQoLDA0O"}},
 	{"17-bytes", []string{"AAECAwQFBgcICQoLDA0ODxA="}},
 	{"not-base64", []string{"!!!!not*base64!!!!!!!!=="}},
@@ -392,7 +394,7 @@ func c11SelfTest(c *fw.Ctx) bool {
 		return false
 	}
 	// every key variant must land in the model clause its name announces
-	wantClause := map[string]string{"valid": "", "valid-ff": "", "noncanonical-zero": "", "noncanonical-sample": "", "absent": handshake.ClKeyMissing, "two-lines": handshake.ClKeyDuplicate,
+	wantClause := map[string]string{"valid": "", "valid-ff": "", "noncanonical-zero": "", "noncanonical-sample": "", "absent": handshake.ClKeyMissing, "two-lines": handshake.ClKeyDuplicate, "valid+blank": handshake.ClKeyDuplicate, "blank+valid": handshake.ClKeyDuplicate,
 		"15-bytes": handshake.ClKeyLength, "17-bytes": handshake.ClKeyLength, "not-base64": handshake.ClKeyNotBase64, "empty": handshake.ClKeyLength}
 	for _, k := range c11Keys {
 		r := ok
